@@ -356,6 +356,18 @@ def _as_index(i):
     return i
 
 
+class SymILoc:
+    """positional access into a data vector that is one atom: x.iloc[i] -> idx[i](x); x.iloc[[i, j]] -> the two elements"""
+
+    def __init__(self, v):
+        self.v = v
+
+    def sym_subscript(self, ev, idx, n, mod):
+        if isinstance(idx, Tup) and idx.kind == "list":
+            return Tup([ev.subscript(self.v, i, n, mod) for i in idx.items], "list")
+        return ev.subscript(self.v, idx, n, mod)
+
+
 MAYBE_ZERO_ATOMS = {"T"}
 
 
@@ -446,6 +458,8 @@ class Ev:
                 return Transposed(v) if not isinstance(v, Transposed) else v.args[0]
             if name in ("copy", "flatten", "to_numpy", "tolist", "conj", "real", "tobytes", "argmin", "argmax", "min", "max", "mean", "astype"):
                 return BoundLib(f"ndarray.{name}", v)
+            if name in ("iloc", "loc", "iat"):
+                return SymILoc(v)
             if name == "shape":
                 if getattr(self, "shape_of", None) is not None:
                     return self.shape_of(v)
@@ -2012,6 +2026,10 @@ def lib_len(ev, a, k, n, mod):
         return RankOf(v.v)
     if isinstance(v, ArrV) and v.batch == 0:
         return sp.Integer(v.shape[0])
+    if hasattr(v, "sym_len"):
+        return v.sym_len()
+    if is_sym(v) and not v.is_number:
+        return sp.Function("LEN", positive=True, integer=True)(v)          # the length of a data vector: an unknown positive integer
     raise ev.err("len() of a non-constant", n, mod)
 
 
@@ -2039,6 +2057,8 @@ def lib_list(ev, a, k, n, mod):
 def lib_sorted(ev, a, k, n, mod):
     items = ev.iterate(a[0], n, mod)
     key = k.get("key")
+    if key is None and len(items) == 2 and all(is_sym(i) for i in items) and not all(i.is_number for i in items) and not k.get("reverse", False):
+        return Tup([sp.Min(*items), sp.Max(*items)], "list")       # two data values in order
     def kf(x):
         v = ev.call(key, [x], {}, n, mod) if key is not None else x
         if is_sym(v) and v.is_number:
@@ -2145,7 +2165,7 @@ def lib_int(ev, a, k, n, mod):
         # truncation toward zero: floor for a non-negative argument, an opaque INT atom otherwise
         if v.is_integer:
             return v
-        if isinstance(v, sp.Function) and getattr(v.func, "__name__", "") in ("ROUND", "RINT"):
+        if isinstance(v, sp.Function) and getattr(v.func, "__name__", "") in ("ROUND", "RINT", "ARGMIN", "ARGMAX", "SEARCHSORTED_left", "SEARCHSORTED_right"):
             return v
         return sp.floor(v) if v.is_nonnegative else sp.Function("INT")(v)
     raise ev.err("int() of a non-constant", n, mod)
@@ -3107,6 +3127,18 @@ def lib_result_type(ev, a, k, n, mod):
     raise ev.err("numpy.result_type of non-floating types", n, mod)
 
 
+def lib_round(ev, a, k, n, mod):
+    x = as_sym(a[0])
+    nd = a[1] if len(a) > 1 else k.get("ndigits")
+    if nd is not None:
+        return lib_np_round(ev, [x, nd], {}, n, mod)
+    if x.is_Rational:
+        return sp.Integer(round(x))
+    return sp.Function("ROUND")(x)
+
+
+lib_round.kw = {"ndigits"}
+LIB.setdefault("round", lib_round)
 for _nm in ("j_to_ev", "ev_to_j", "gpa_to_megabar", "megabar_to_gpa", "b3_to_a3", "a3_to_b3", "ry_to_ev", "ev_to_ry", "ry_to_j", "j_to_ry",
             "gpa_to_ev_a3", "ev_a3_to_gpa", "gpa_to_ry_b3", "ry_b3_to_gpa", "gpa_to_ev_b3", "ev_b3_to_gpa"):
     LIB.setdefault(f"qha.unit_conversion.{_nm}", lib_qha_convert(_nm))
